@@ -15,6 +15,8 @@ import (
 	"fmt"
 	"math/rand"
 	"os"
+	"path/filepath"
+	"sync"
 	"time"
 
 	"gitlab.com/gomidi/midi/v2/drivers/testdrv"
@@ -61,6 +63,17 @@ type RecRec struct {
 	Werr   string   `json:"werr"`
 	Read   R        `json:"read"`
 	Feat   []string `json:"feat"`
+	// how the recording is made: "track" Track.RecordFrom (+ smf.New, Add, WriteTo); "smf" SMF.RecordFrom (+ WriteTo);
+	// "file" smf.RecordTo (stop writes the file; resolution is that of smf.New)
+	Via string `json:"via"`
+	// what else happens to the same SMF while the recording runs (via smf): "none", "add" (SMF.Add of another track) or
+	// "record2" (a second SMF.RecordFrom from another port, stopped after the first); it happens before chunk ExtraAt (0-based)
+	Extra   string `json:"extra"`
+	ExtraAt int    `json:"extraat"`
+	// an EARLIER complete recording [res, bpm100] made in the same process before this one ([] = none): recordings are independent
+	Prior  []int      `json:"prior"`
+	Tracks [][]REvent `json:"tracks"` // all tracks of the SMF that was written
+	Ti     int        `json:"ti"`     // 1-based position of the recorded track in Tracks (0: there is none)
 }
 
 func cp(b []byte) hx.B { return append(hx.B{}, b...) }
@@ -114,32 +127,128 @@ func toR(s *smf.SMF, err error, pan string) R {
 	return r
 }
 
+// priorRecording makes a complete small recording at the given setting (process state a later recording must not see).
+func priorRecording(res, bpm100 int) string {
+	return hx.Catch(func() {
+		var tr smf.Track
+		drv := testdrv.New("verif-prior")
+		ins, _ := drv.Ins()
+		outs, _ := drv.Outs()
+		stop, err := tr.RecordFrom(ins[0], smf.MetricTicks(res), float64(bpm100)/100)
+		if err != nil {
+			panic(err)
+		}
+		outs[0].Open()
+		drv.Sleep(1500 * time.Millisecond)
+		outs[0].Send([]byte{0x90, 60, 100})
+		drv.Sleep(250 * time.Millisecond)
+		outs[0].Send([]byte{0x80, 60, 0})
+		stop()
+		tr.Close(0)
+	})
+}
+
+var extraText = smf.MetaText("extra track added while the recording runs")
+
+func isExtra(t smf.Track) bool {
+	for _, e := range t {
+		if bytes.Equal(e.Message, extraText) || bytes.Equal(e.Message, []byte{0x9F, 127, 1}) {
+			return true
+		}
+	}
+	return false
+}
+
 // record executes one session on the real code and fills everything but the inputs.
 func record(rec *RecRec) {
 	rec.Panic, rec.Werr, rec.Size = "", "", 0
 	rec.Track, rec.Bytes = []REvent{}, hx.B{}
+	rec.Tracks, rec.Ti = [][]REvent{}, 0
 	rec.Read = R{Kind: "none", Tracks: [][]REvent{}}
+	if rec.Prior == nil {
+		rec.Prior = []int{}
+	}
+	if rec.Via == "" {
+		rec.Via, rec.Extra = "track", "none"
+	}
+	if len(rec.Prior) == 2 {
+		if p := priorRecording(rec.Prior[0], rec.Prior[1]); p != "" {
+			rec.Panic = "previous recording: " + p
+			return
+		}
+	}
 
 	var tr smf.Track
+	var file *smf.SMF
+	var fname string
 	drv := testdrv.New("verif")
 	ins, _ := drv.Ins()
 	outs, _ := drv.Outs()
-	var stop func()
+	drv2 := testdrv.New("verif2")
+	ins2, _ := drv2.Ins()
+	outs2, _ := drv2.Outs()
+	var stop, stop2 func()
+	var stopf func() error
 	var err error
+	bpm := float64(rec.Bpm100) / 100
 	p := hx.Catch(func() {
-		stop, err = tr.RecordFrom(ins[0], smf.MetricTicks(rec.Res), float64(rec.Bpm100)/100)
+		switch rec.Via {
+		case "track":
+			stop, err = tr.RecordFrom(ins[0], smf.MetricTicks(rec.Res), bpm)
+		case "smf":
+			file = smf.New()
+			file.TimeFormat = smf.MetricTicks(rec.Res)
+			stop, err = file.RecordFrom(ins[0], bpm)
+		case "file":
+			d, e := os.MkdirTemp(tmpRoot, "rec")
+			if e != nil {
+				hx.Die(e)
+			}
+			fname = d + "/rec.mid"
+			stopf, err = smf.RecordTo(ins[0], bpm, fname)
+		default:
+			hx.Die("unknown via", rec.Via)
+		}
 		if err == nil {
 			err = outs[0].Open()
 		}
 	})
+	if fname != "" {
+		defer os.RemoveAll(fname[:len(fname)-len("/rec.mid")])
+	}
 	if p != "" || err != nil {
 		rec.Panic = fmt.Sprintf("setup: %s %v", p, err)
 		return
+	}
+	extra := func() {
+		switch rec.Extra {
+		case "add":
+			var t smf.Track
+			t.Add(0, extraText)
+			t.Close(0)
+			file.Add(t)
+		case "record2":
+			stop2, err = file.RecordFrom(ins2[0], bpm)
+			if err == nil {
+				outs2[0].Open()
+				drv2.Sleep(1200 * time.Millisecond)
+				err = outs2[0].Send([]byte{0x9F, 127, 1})
+			}
+			if err != nil {
+				panic(err)
+			}
+		}
 	}
 	// the clock of testdrv starts at the wall clock of Listen: the lead keeps the first stamp positive
 	drv.Sleep(time.Duration(rec.Lead) * time.Millisecond)
 	for i := range rec.Chunks {
 		c := &rec.Chunks[i]
+		if rec.Via == "smf" && i == rec.ExtraAt {
+			if p := hx.Catch(extra); p != "" {
+				rec.Panic = "extra: " + p
+				break
+			}
+		}
 		drv.Sleep(time.Duration(c.Dt) * time.Millisecond)
 		p := hx.Catch(func() { err = outs[0].Send(c.Bytes) })
 		if p != "" {
@@ -151,23 +260,46 @@ func record(rec *RecRec) {
 			break
 		}
 	}
-	if p := hx.Catch(func() {
-		stop()
-		tr.Close(0)
-	}); p != "" && rec.Panic == "" {
-		rec.Panic = "stop/close: " + p
+	if rec.Via == "smf" && rec.ExtraAt >= len(rec.Chunks) && rec.Panic == "" {
+		if p := hx.Catch(extra); p != "" {
+			rec.Panic = "extra: " + p
+		}
 	}
-	rec.Track = events(tr)
-
 	var buf bytes.Buffer
 	var n int64
-	var s *smf.SMF
-	p = hx.Catch(func() {
-		s = smf.New()
-		s.TimeFormat = smf.MetricTicks(rec.Res)
-		s.Add(tr) // reports an unclosed track only; the track is closed
-		n, err = s.WriteTo(&buf)
-	})
+	switch rec.Via {
+	case "track":
+		if p := hx.Catch(func() {
+			stop()
+			tr.Close(0)
+		}); p != "" && rec.Panic == "" {
+			rec.Panic = "stop/close: " + p
+		}
+		p = hx.Catch(func() {
+			file = smf.New()
+			file.TimeFormat = smf.MetricTicks(rec.Res)
+			file.Add(tr) // reports an unclosed track only; the track is closed
+			n, err = file.WriteTo(&buf)
+		})
+	case "smf":
+		if p := hx.Catch(func() {
+			stop()
+			if stop2 != nil {
+				stop2()
+			}
+		}); p != "" && rec.Panic == "" {
+			rec.Panic = "stop: " + p
+		}
+		p = hx.Catch(func() { n, err = file.WriteTo(&buf) })
+	case "file":
+		p = hx.Catch(func() { err = stopf() })
+		if p == "" && err == nil {
+			var bt []byte
+			bt, err = os.ReadFile(fname)
+			buf.Write(bt)
+			n = int64(len(bt))
+		}
+	}
 	rec.Bytes, rec.Size = cp(buf.Bytes()), n
 	if p != "" {
 		rec.Werr = "panic: " + p
@@ -178,6 +310,20 @@ func record(rec *RecRec) {
 	var rerr error
 	p = hx.Catch(func() { rs, rerr = smf.ReadFrom(bytes.NewReader(buf.Bytes())) })
 	rec.Read = toR(rs, rerr, p)
+	// the tracks of the SMF that was written (via file: the library hands out nothing but the file, so: as read back)
+	var all []smf.Track
+	if file != nil {
+		all = file.Tracks
+	} else if rs != nil {
+		all = rs.Tracks
+	}
+	for i, t := range all {
+		rec.Tracks = append(rec.Tracks, events(t))
+		if rec.Ti == 0 && !isExtra(t) {
+			rec.Ti = i + 1
+			rec.Track = events(t)
+		}
+	}
 }
 
 // recordWatched runs record under a 10 s watchdog (the calls take microseconds).
@@ -189,10 +335,11 @@ func recordWatched(rec *RecRec) {
 	}()
 	select {
 	case <-done:
-	case <-time.After(10 * time.Second):
+	case <-time.After(15 * time.Second): // (the stop functions of SMF.RecordFrom sleep one second each)
 		// the goroutine may still be writing into rec: report on a copy of the inputs only
 		hung := RecRec{ID: rec.ID, Res: rec.Res, Bpm100: rec.Bpm100, Lead: rec.Lead, Chunks: rec.Chunks, Feat: rec.Feat,
-			Panic: "timeout: session did not finish within 10 s", Track: []REvent{}, Bytes: hx.B{},
+			Via: rec.Via, Extra: rec.Extra, ExtraAt: rec.ExtraAt, Prior: rec.Prior, Tracks: [][]REvent{},
+			Panic: "timeout: session did not finish within 15 s", Track: []REvent{}, Bytes: hx.B{},
 			Read: R{Kind: "timeout", Tracks: [][]REvent{}}}
 		*rec = hung
 	}
@@ -390,6 +537,9 @@ var bpmList = []int{2000, 2001, 6000, 9999, 12000, 12037, 14285, 20000, 33333, 3
 
 const lead = 1000
 
+// directory for the files smf.RecordTo writes (the scratch directory of the run)
+var tmpRoot string
+
 func genSession(r *rand.Rand, id int) *RecRec {
 	s := &RecRec{ID: id, Lead: lead}
 	s.Res = resList[r.Intn(len(resList))]
@@ -425,6 +575,14 @@ func genSession(r *rand.Rand, id int) *RecRec {
 		feat["garbage_prefix"] = true
 	}
 	s.Chunks = chunkUp(r, stream, budget)
+	s.Via, s.Extra, s.Prior = "track", "none", []int{}
+	if hx.Chance(r, 0.4) { // an earlier recording in the same process: same tempo and another resolution, or anything
+		s.Prior = []int{resList[r.Intn(len(resList))], s.Bpm100}
+		if hx.Chance(r, 0.3) {
+			s.Prior = []int{s.Res, bpmList[r.Intn(len(bpmList))]}
+		}
+		feat["prior_recording"] = true
+	}
 	s.Feat = []string{}
 	for f := range feat {
 		s.Feat = append(s.Feat, f)
@@ -437,12 +595,55 @@ func cmdGen(args []string) {
 	seed := fs.Int64("seed", 1, "")
 	n := fs.Int("n", 100, "")
 	out := fs.String("out", "", "")
+	nslow := fs.Int("nslow", 0, "sessions through SMF.RecordFrom / smf.RecordTo")
 	fs.Parse(args)
+	tmpRoot = filepath.Dir(*out)
 	r := rand.New(rand.NewSource(*seed))
 	w := hx.Create(*out)
 	for i := 0; i < *n; i++ {
 		s := genSession(r, i)
 		recordWatched(s)
+		w.Put(s)
+	}
+	// recordings through the file-level wrappers: their stop functions sleep a second each, so these sessions run concurrently
+	slow := make([]*RecRec, *nslow)
+	for i := range slow {
+		s := genSession(r, *n+i)
+		s.Prior = []int{}
+		switch i % 6 {
+		case 0:
+			s.Via = "smf"
+		case 1, 2:
+			s.Via, s.Extra, s.ExtraAt = "smf", "add", r.Intn(len(s.Chunks)+1)
+		case 3, 4:
+			s.Via, s.Extra, s.ExtraAt = "smf", "record2", r.Intn(len(s.Chunks)+1)
+		default:
+			s.Via, s.Res = "file", 960
+			var total int64 // resolution changed: keep the session inside the delta domain
+			budget := (int64(1)<<28 - 16) * 6000000 / (int64(s.Res) * int64(s.Bpm100))
+			for j := range s.Chunks {
+				if total+int64(s.Chunks[j].Dt)+lead+1 > budget {
+					s.Chunks[j].Dt = 0
+				}
+				total += int64(s.Chunks[j].Dt)
+			}
+		}
+		s.Feat = append(s.Feat, "via_"+s.Via, "extra_"+s.Extra)
+		slow[i] = s
+	}
+	var wg sync.WaitGroup
+	sem := make(chan struct{}, 64)
+	for _, s := range slow {
+		wg.Add(1)
+		sem <- struct{}{}
+		go func(s *RecRec) {
+			defer wg.Done()
+			recordWatched(s)
+			<-sem
+		}(s)
+	}
+	wg.Wait()
+	for _, s := range slow {
 		w.Put(s)
 	}
 	w.Close()
@@ -454,6 +655,7 @@ func cmdRerun(args []string) {
 	in := fs.String("in", "", "")
 	out := fs.String("out", "", "")
 	fs.Parse(args)
+	tmpRoot = filepath.Dir(*out)
 	w := hx.Create(*out)
 	hx.ReadLines(*in, func(l []byte) {
 		var s RecRec
